@@ -50,6 +50,9 @@ def proxy_scenarios(ctx, out):
         mate = EReference('mate', Node)
         mateof = EReference('mateOf', Node, eOpposite=mate)
         Node.eStructuralFeatures.extend([mate, mateof])
+        owner = EReference('owner', Node)
+        items = EReference('items', Node, upper=-1, eOpposite=owner)
+        Node.eStructuralFeatures.extend([owner, items])
         Node.eStructuralFeatures.append(EReference('local', Node, upper=-1))
         Node.eStructuralFeatures.append(EReference('kids', Node, upper=-1, containment=True))
         pkg = EPackage('demo', nsURI=f'http://verif/c07/{it}', nsPrefix='demo')
@@ -74,6 +77,10 @@ def proxy_scenarios(ctx, out):
             anames, bnames = [x[0] for x in plan['a']], [x[0] for x in plan['b']]
             used_mate = set()
             for nm in anames:
+                if rng.random() < 0.6:      # single end here, many-valued end (items) in the other resource
+                    t = rng.choice(bnames)
+                    nodes[nm].owner = nodes[t]
+                    plan['links'].append([nm, 'owner', t])
                 for f in ('friend', 'second', 'mate'):
                     if rng.random() < 0.6:
                         t = rng.choice(bnames if rng.random() < 0.8 else anames)
@@ -101,7 +108,7 @@ def proxy_scenarios(ctx, out):
                     loaded[o.name] = o
             # resolve every proxy in some public way
             for nm in anames:
-                for f in ('friend', 'second', 'mate'):
+                for f in ('friend', 'second', 'mate', 'owner'):
                     v = loaded[nm].eGet(f)
                     if isinstance(v, EProxy) and not v.resolved:
                         how = rng.choice(['read', 'force', 'eget', 'write', 'econtainer'])
@@ -128,10 +135,10 @@ def proxy_scenarios(ctx, out):
             def snapshot():
                 d = {}
                 for nm, o in loaded.items():
-                    for f in ('friend', 'second', 'mate', 'mateOf'):
+                    for f in ('friend', 'second', 'mate', 'mateOf', 'owner'):
                         v = unwrap(o.eGet(f))
                         d[(nm, f)] = None if v is None else v.name
-                    for f in ('local', 'kids'):
+                    for f in ('local', 'kids', 'items'):
                         d[(nm, f)] = [unwrap(v).name for v in o.eGet(f)]
                     c = o.eContainer()
                     d[(nm, 'container')] = None if c is None else c.name
